@@ -120,6 +120,7 @@ def check(ix, rep):
         rep.fail('R-SIB', rf.module.rel, '%s.update' % ops[ref_nc].name, 'carry-over', 'the reference binary operation does not extend both buffers and store both remainders back', rf.node.lineno)
     # 2. the online merge kernel
     nord, narms, used = ordkernel.check_kernel(ix, rep, ON_KERNEL)
+    ordkernel.check_append_helper(ix, rep, ON_KERNEL)
     rep.floor('orderings of the four segment ends', nord, 13)
     # slot functions have the reference meaning
     decided = 0
@@ -257,6 +258,21 @@ def check(ix, rep):
     _G.fixture_selfcheck(rep)
     ngl = _G.run_global(ix, rep, prefix='rtamt.semantics.stl.dense_time') + _G.run_global(ix, rep, prefix='rtamt.semantics.arithmetic.dense_time')
     rep.floor('dense-time modules scanned for shared operation state', ngl, 30)
+    # pastify() of a past formula is the identity only if the bounds it rebuilds are the written ones: each bound converted with its own unit
+    # (else the other bound's, else the default) by the normalisers the pastifier and the horizon use
+    from sa.rules import units as _u2, unitflow as _uf2
+    _pc = ix.find_class('rtamt.pastifier.stl.pastifier', 'StlPastifier')
+    _hc = ix.find_class('rtamt.pastifier.stl.horizon', 'StlHorizon')
+    _norms = {}
+    for _c in (_pc, _hc):
+        if _c is None:
+            raise AnalysisError('pastifier / horizon class vanished')
+        for _f in _c.methods.values():
+            for _nf in _uf2.normalisers_used(ix, _c, _f):
+                _norms[id(_nf)] = _nf
+    for _nf in _norms.values():
+        _u2.check_transformer(ix, rep, None, None, 'dense', func=_nf)
+    rep.floor('bound normalisers of the pastifier', len(_norms), 1)
     explanation = (
         'Carry-over structure only. R-STEP: the update visitor steps every operation object exactly once per update (memo keyed by node name, hit '
         'decided by membership and not by the truth value of the cached result). R-SIB: the eleven binary dense-time online operations (and/or/implies/iff/xor, + - * / pow log) have '
